@@ -41,8 +41,7 @@ RULE = ("strings: every string over the 18-character alphabet {0 1 9 . e - + spa
 ASSUMPTIONS = ["long double has a 64-bit significand (x87): sizes whose mantissa*unit needs more than 64 bits are "
                "compared with a tolerance of one byte per term and counted (inexact_domain)",
                "glibc sets ERANGE exactly for results that round to infinity or lie below the smallest normal number",
-               "MemTotal / SwapTotal below 2^56 bytes (percent of total does not overflow int64); SwapTotal below 2^31 "
-               "(KillSwapUsage keeps it in an int - finding of C09)",
+               "MemTotal / SwapTotal below 2^56 bytes (percent of total does not overflow int64)",
                "JSON numbers in configuration documents are integers of [-2^63, 2^64), which jsoncpp keeps exactly (its rendering of reals is not modelled)",
                "jsoncpp's text -> value tree step is taken from the harness (syntax verdict) and Python's json (tree)"]
 TRUSTED = ["glibc strto* / libstdc++ std::sto* (modelled, validated string by string on every run)",
@@ -318,6 +317,8 @@ def plugin_variants(rng, sch, tier):
             a = dict(base)
             a["threshold"] = rng.choice(["33%", "99%", "100%", "1%"])
             out.append((a, {"memtotal_kb": kb, "swaptotal_kb": "2097151"}))
+            # totals beyond 2^31 / 2^32 bytes (the int truncation of SwapTotal was repaired under C09)
+            out.append((dict(a), {"memtotal_kb": kb, "swaptotal_kb": rng.choice(["2097153", "4194305", "8388609", "70368744177663"])}))
         a = dict(base)
         a["meminfo_location"] = "/nonexistent/meminfo"
         out.append((a, {"meminfo_missing": True}))
